@@ -1,2 +1,148 @@
--- stub driver, replaced by the builder of X03
-def main : IO Unit := pure ()
+import PyramidModel.Renderers
+import PyramidModel.Lemmas.RenderersSpec
+import PyramidModel.Gen.X03
+/-!
+X03 driver.  One JSON case per line:
+
+  {"k":"cb","cb":[codes]}                        → {"accept":bool}
+  {"k":"dumps","v":VAL,"regs":[[spec,adapter]]}  → {"text":[codes]|null,"plain":bool,"roundtrip":bool|null}
+  {"k":"lookup","sro":[ids],"regs":[[s,a]]}      → {"adapter":id|null}
+  {"k":"view", "renderer":R|null, "override":R|null, "param":[codes], "regs":[[s,a]], "params":[[[codes],[codes]]],
+     "respCt":[codes], "dflt":[codes], "status":n, "result":RESULT}
+        → {"ok":{"status":n,"ct":[codes],"body":{"t":[codes]}|{"b":[bytes]}|null,"left":bool}} | {"err":name}
+
+VAL    := null | true | false | n | {"s":[codes]} | {"a":[VAL…]} | {"o":[[[codes],VAL]…]} | {"c":{"sro":[ids],"json":bool,"p":VAL}}
+RESULT := {"t":"response"|"iresponse","status":n,"ct":[codes],"body":[codes]} | {"t":"bytes","b":[bytes],"sro":[ids]} | {"t":"value","v":VAL}
+R      := "json" | "jsonp" | "string" | "raw" | "missing"
+-/
+open Lean (Json)
+open Pyr Pyr.Render
+
+def codes (t : Text) : Json := Json.arr (t.map fun (c : Char) => Json.num (Int.ofNat c.toNat)).toArray
+
+def getText (j : Json) : Except String Text := do
+  let a ← j.getArr?
+  a.toList.mapM fun x => do
+    let n ← x.getNat?
+    pure (Char.ofNat n)
+
+def getNats (j : Json) : Except String (List Nat) := do
+  let a ← j.getArr?
+  a.toList.mapM fun x => x.getNat?
+
+def getRegs (j : Json) : Except String Regs := do
+  let a ← j.getArr?
+  a.toList.mapM fun x => do
+    let p ← getNats x
+    match p with
+    | [s, ad] => pure (s, ad)
+    | _ => throw "reg"
+
+partial def getVal (j : Json) : Except String Val :=
+  match j with
+  | .null => pure .null
+  | .bool b => pure (.bool b)
+  | .num n => if n.exponent = 0 then pure (.int n.mantissa) else throw "non-integer number"
+  | _ => do
+    if let .ok s := j.getObjVal? "s" then
+      return .str (← getText s)
+    if let .ok a := j.getObjVal? "a" then
+      let xs ← (← a.getArr?).toList.mapM getVal
+      return .arr (xs.foldr Vals.cons .nil)
+    if let .ok o := j.getObjVal? "o" then
+      let ms ← (← o.getArr?).toList.mapM fun m => do
+        let p ← m.getArr?
+        if h : p.size = 2 then
+          let k ← getText p[0]
+          let v ← getVal p[1]
+          pure (k, v)
+        else throw "member"
+      return .obj (ms.foldr (fun m r => Mems.cons m.1 m.2 r) .nil)
+    if let .ok c := j.getObjVal? "c" then
+      let sro ← getNats (← c.getObjVal? "sro")
+      let hj ← (← c.getObjVal? "json").getBool?
+      let p ← getVal (← c.getObjVal? "p")
+      return .custom sro hj p
+    throw "value"
+
+def getRName (j : Json) : Except String (Option RName) :=
+  match j with
+  | .null => pure none
+  | .str "json" => pure (some .json)
+  | .str "jsonp" => pure (some .jsonp)
+  | .str "string" => pure (some .string)
+  | .str "raw" => pure (some .raw)
+  | .str "missing" => pure (some .missing)
+  | _ => throw "renderer name"
+
+def getResult (j : Json) : Except String Result := do
+  let t ← (← j.getObjVal? "t").getStr?
+  match t with
+  | "response" | "iresponse" =>
+    let st ← (← j.getObjVal? "status").getNat?
+    let ct ← getText (← j.getObjVal? "ct")
+    let body ← getText (← j.getObjVal? "body")
+    let r : Resp := ⟨st, ct, .text body⟩
+    pure (if t = "response" then .response r else .iresponse r)
+  | "bytes" => pure (.bytes (← getNats (← j.getObjVal? "b")) (← getNats (← j.getObjVal? "sro")))
+  | "value" => pure (.value (← getVal (← j.getObjVal? "v")))
+  | _ => throw "result"
+
+def renderedJson : Rendered → Json
+  | .text t => Json.mkObj [("t", codes t)]
+  | .bytes b => Json.mkObj [("b", Json.arr (b.map fun (n : Nat) => Json.num (Int.ofNat n)).toArray)]
+  | .none => Json.null
+
+def errName : Err → String
+  | .badRequest => "badRequest"
+  | .typeError => "typeError"
+  | .valueError => "valueError"
+  | .unmodelled => "unmodelled"
+
+def tb : Tables := Pyr.Gen.X03.tables
+
+def handle (j : Json) : Except String Json := do
+  let k ← (← j.getObjVal? "k").getStr?
+  match k with
+  | "cb" =>
+    let cb ← getText (← j.getObjVal? "cb")
+    pure (Json.mkObj [("accept", Json.bool (accepts tb.pattern cb))])
+  | "dumps" =>
+    let v ← getVal (← j.getObjVal? "v")
+    let regs ← getRegs (← j.getObjVal? "regs")
+    match resolve regs v with
+    | none => pure (Json.mkObj [("text", Json.null), ("plain", Json.bool v.plain), ("roundtrip", Json.null)])
+    | some w =>
+      let txt := dumps w
+      let rt := match loads txt with
+        | some w' => Val.beq w w'
+        | none => false
+      pure (Json.mkObj [("text", codes txt), ("plain", Json.bool v.plain), ("roundtrip", Json.bool rt)])
+  | "lookup" =>
+    let sro ← getNats (← j.getObjVal? "sro")
+    let regs ← getRegs (← j.getObjVal? "regs")
+    pure (Json.mkObj [("adapter", match lookupAdapter regs sro with
+      | some a => Json.num (Int.ofNat a)
+      | none => Json.null)])
+  | "view" =>
+    let params ← (← (← j.getObjVal? "params").getArr?).toList.mapM fun p => do
+      let a ← p.getArr?
+      if h : a.size = 2 then pure ((← getText a[0]), (← getText a[1])) else throw "param"
+    let c : Case := {
+      renderer := ← getRName (← j.getObjVal? "renderer")
+      override := ← getRName (← j.getObjVal? "override")
+      paramName := ← getText (← j.getObjVal? "param")
+      regs := ← getRegs (← j.getObjVal? "regs")
+      params := params
+      respCt := ← getText (← j.getObjVal? "respCt")
+      dflt := ← getText (← j.getObjVal? "dflt")
+      respStatus := ← (← j.getObjVal? "status").getNat?
+      result := ← getResult (← j.getObjVal? "result") }
+    match renderedView tb c with
+    | .error e => pure (Json.mkObj [("err", Json.str (errName e))])
+    | .ok o =>
+      pure (Json.mkObj [("ok", Json.mkObj [("status", Json.num (Int.ofNat o.resp.status)), ("ct", codes o.resp.ct),
+        ("body", renderedJson o.resp.body), ("left", Json.bool o.overrideLeft)])])
+  | _ => throw s!"unknown case kind {k}"
+
+def main : IO Unit := jsonDriver handle
